@@ -141,6 +141,8 @@ def term_zoo():
     add("Parameter", 0, lambda f: T.Parameter("?"))
     add("Parameter.idx", 0, lambda f: T.Parameter(idx=2))  # positional: the placeholder style is the dialect's
     # constructor parameters that usually receive a constant, given a term / a library singleton instead
+    add("Array.empty", 0, lambda f: T.Array())
+    add("Tuple.single", 1, lambda f: T.Tuple(f[0]))
     add("functions.Extract.part", 2, lambda f: _F.Extract(f[0], f[1]))
     add("functions.Cast.sqltype", 1, lambda f: _F.Cast(f[0], _SqlTypes.VARCHAR))
     add("functions.Cast.sqltype_len", 1, lambda f: _F.Cast(f[0], _SqlTypes.VARCHAR(24)))
